@@ -14,6 +14,7 @@ import (
 	"strings"
 	"testing"
 
+	"connectrpc.com/conformance/internal"
 	"connectrpc.com/conformance/internal/verifkit"
 	"pgregory.net/rapid"
 )
@@ -405,6 +406,9 @@ func vfC14Check(c vfC14Case) error {
 		if diff := vfMatchEvents(model, events); diff != "" {
 			return verifkit.Violf("trace-mismatch", "side=%s partition=%d: %s\n model : %v\n actual: %v\n req items: %s\n resp items: %s", c.Side, cut, diff, model, events, c.Req.Items, c.Resp.Items)
 		}
+		if err := vfCheckPrinted(traces[0]); err != nil {
+			return err
+		}
 	}
 	// (2) the event list does not depend on the partition
 	if c.Req.End == "close-early" || c.Resp.End == "close-early" {
@@ -412,6 +416,53 @@ func vfC14Check(c vfC14Case) error {
 	}
 	if a, b := fmt.Sprint(summaries[0]), fmt.Sprint(summaries[1]); a != b {
 		return verifkit.Violf("partition-dependent", "events differ between two partitions of the same bytes:\n A: %s\n B: %s", a, b)
+	}
+	return nil
+}
+
+// vfCheckPrinted: the printed form of a trace (what the runner shows under "---- HTTP Trace ----") says of every
+// enveloped message what its event says: "prefix: flags=F, len=L" and, once payload bytes were seen,
+// "data: seen/L bytes" (the documented form, docs/configuring_and_running_tests.md); a partial prefix or a message
+// of a body that is not enveloped prints as "data: N bytes".
+func vfCheckPrinted(tr Trace) error {
+	p := &internal.SimplePrinter{}
+	tr.Print(p)
+	printed := strings.Join(p.Messages, "\n")
+	has := func(prefix, text string) bool {
+		for _, l := range p.Messages {
+			if strings.HasPrefix(l, prefix) && strings.HasSuffix(strings.TrimRight(l, "\n"), text) {
+				return true
+			}
+		}
+		return false
+	}
+	for _, ev := range tr.Events {
+		var prefix string
+		var env *Envelope
+		var n uint64
+		var idx int
+		switch e := ev.(type) {
+		case *RequestBodyData:
+			prefix, env, n, idx = requestPrefix, e.Envelope, e.Len, e.MessageIndex
+		case *ResponseBodyData:
+			prefix, env, n, idx = responsePrefix, e.Envelope, e.Len, e.MessageIndex
+		default:
+			continue
+		}
+		var want []string
+		if env != nil {
+			want = append(want, fmt.Sprintf("message #%d: prefix: flags=%d, len=%d", idx+1, env.Flags, env.Len))
+			if n > 0 {
+				want = append(want, fmt.Sprintf("message #%d: data: %d/%d bytes", idx+1, n, env.Len))
+			}
+		} else {
+			want = append(want, fmt.Sprintf("message #%d: data: %d bytes", idx+1, n))
+		}
+		for _, w := range want {
+			if !has(prefix, w) {
+				return verifkit.Violf("printed-trace", "the printed trace has no %q line ending in %q for the event %+v\n%.1500s", prefix, w, ev, printed)
+			}
+		}
 	}
 	return nil
 }
